@@ -33,7 +33,12 @@ var freeShapes = []struct {
 	kind string
 	rom  uint8
 	ram  uint8
-}{{"mbc5", 8, 3}, {"mbc5", 8, 0}, {"mbc1", 6, 3}, {"mbc3", 6, 3}, {"mbc5", 7, 4}, {"rom", 0, 0}, {"mbc2", 3, 0}, {"mbc3", 8, 5}}
+	typ  uint8 // 0: the family's usual type byte
+}{{"mbc5", 8, 3, 0}, {"mbc5", 8, 0, 0}, {"mbc1", 6, 3, 0}, {"mbc3", 6, 3, 0}, {"mbc5", 7, 4, 0}, {"rom", 0, 0, 0}, {"mbc2", 3, 0, 0}, {"mbc3", 8, 5, 0},
+	{"mbc3", 1, 3, 0x10}, {"mbc3", 2, 0, 0x0f}} // with the clock
+
+// freeShapeClock is the first shape (1-based) whose cartridge carries the MBC3 clock.
+const freeShapeClock = 9
 
 func (w workload) store(sc *engine.Scenario, pfx string) {
 	sc.SetStr(pfx+"wl", w.Kind)
@@ -122,6 +127,9 @@ func newFree(w workload, chanCap int, res *engine.Result) *machine.Machine {
 			spec.Type = 0
 			if s.kind != "rom" {
 				spec.Type = cartTypeFor(s.kind)
+			}
+			if s.typ != 0 {
+				spec.Type = s.typ
 			}
 		}
 		if w.Kind == "irq" {
@@ -225,8 +233,12 @@ func newFree(w workload, chanCap int, res *engine.Result) *machine.Machine {
 			// work RAM), then RAM bank 0 is selected again
 			for j, k := 0, r.Range(1, 3); j < k; j++ {
 				g.emit(0x3e, uint8(0x08+r.Intn(5)), 0xea, 0x00, 0x40) // select a clock register
-				if r.Bool() {
+				if r.Chance(1, 4) {
 					g.emit(0x3e, r.Byte(), 0xea, 0x00, 0xa0) // write it
+				} else if r.Chance(2, 3) {
+					// write a value that is another one every time round (a counter in work RAM)
+					g.emit16(0x21, lsStackLo-0x90)
+					g.emit(0x34, 0x7e, 0xea, 0x00, 0xa0) // INC (HL) ; LD A,(HL) ; LD (A000),A
 				}
 				g.emit(0xaf, 0xea, 0x00, 0x60, 0x3c, 0xea, 0x00, 0x60) // latch: 0 then 1
 				g.emit(0xfa, 0x00, 0xa0)                               // LD A,(A000)
@@ -326,6 +338,17 @@ type tracer struct {
 
 func newTracer(m *machine.Machine, every uint64) *tracer {
 	t := &tracer{m: m, dg: engine.NewDigest(), every: every}
+	// everything the CPU reads from and writes to the bus is part of the trace (hook H4): a value that
+	// differs for a moment differs in the trace, whatever overwrites it later
+	m.TapBus()
+	m.OnBusRead = func(a uint16, v uint8) {
+		t.dg.U16(a)
+		t.dg.Byte(v)
+	}
+	m.OnBusWrite = func(a uint16, v uint8) {
+		t.dg.U16(^a)
+		t.dg.Byte(v)
+	}
 	m.OnFrame = func(f *image.RGBA) bool {
 		t.dg.Bytes(f.Pix)
 		return false
